@@ -66,7 +66,7 @@ func NewGenerator(spec *specification.Spec, cfg Config, opts ...GenOption) (*Gen
 		for _, o := range pi.Operations {
 			operation, ims, err := NewOperation(o, g.Components, cfg)
 			if err != nil {
-				return nil, fmt.Errorf(": %w", err)
+				return nil, fmt.Errorf("operation %s %q: %w", o.Method.HTTP, o.PathRaw, err)
 			}
 			g.Imports = append(g.Imports, ims...)
 
